@@ -139,6 +139,7 @@ CHECKS = {
             dict(name="mock", run="^TestPropMock$", checks=(8000, 50000), shards=(4, 16), shrinktime="15s"),
             dict(name="pairs", run="^TestExhaustivePairs$", shards=(2, 4)),
             dict(name="badger", run="^TestPropBadger$", checks=(100, 1000), shards=(2, 8), shrinktime="15s"),
+            dict(name="gets", run="^TestPropConcurrentGets$", checks=(400, 4000), shards=(4, 16), shrinktime="5s"),
             dict(name="regress", run="^TestRegress", shards=(1, 1)),
         ],
     ),
